@@ -308,7 +308,7 @@ func verifC37Gen(r *verifutil.Rand, i int, thorough bool) []string {
 		off = []int{3600, 7200, -25200, 19800, -12600, 50400, -43200, 20700, 0}[r.Intn(9)]
 	}
 	t := verifC37Time(sec, nsec, off)
-	return []string{"reset", fmt.Sprintf("log %d %d %d %d %s %s %s %s %s", lvl, sec, nsec, off, verifutil.HexS(format), arg,
+	return []string{fmt.Sprintf("log %d %d %d %d %s %s %s %s %s", lvl, sec, nsec, off, verifutil.HexS(format), arg,
 		verifutil.HexS(out), verifutil.HexS(t.Format(time.RFC3339Nano)), verifC37NP(out))}
 }
 
